@@ -199,7 +199,8 @@ def r2_yield_discipline(chk: Check) -> None:
         if pol is None:
             continue
         n += 1
-        guarded = any(isinstance(a, ast.If) and f"GenerationMode.{pol} in ctx.generation_modes" in unparse(a.test, 200) and any(is_within(y, s) for s in a.body) for a in ancestors(y))
+        facts = known_conditions(g, g.stmt_nodes_containing(y))
+        guarded = facts.get(f"GenerationMode.{pol} in ctx.generation_modes") is True
         if not guarded and isinstance(y, ast.YieldFrom) and dotted(y.value.func) == "_cover_positive_for_type":  # type: ignore[union-attr]
             # the mode test lives in the callee: every PositiveValue / _positive_* yield there must sit under it
             callee = P.func(f"{COV}:_cover_positive_for_type")
@@ -207,7 +208,7 @@ def r2_yield_discipline(chk: Check) -> None:
             for yy in walk_body(callee.node):
                 is_pos = (isinstance(yy, ast.Yield) and isinstance(yy.value, ast.Call) and dotted(yy.value.func) == "PositiveValue") or (
                     isinstance(yy, ast.YieldFrom) and isinstance(yy.value, ast.Call) and (dotted(yy.value.func) or "").startswith("_positive_"))
-                if is_pos and not any(isinstance(a, ast.If) and "GenerationMode.POSITIVE in ctx.generation_modes" in unparse(a.test, 200) and any(is_within(yy, s_) for s_ in a.body) for a in ancestors(yy)):
+                if is_pos and known_conditions(cfg_of(callee), cfg_of(callee).stmt_nodes_containing(yy)).get("GenerationMode.POSITIVE in ctx.generation_modes") is not True:
                     inner_ok = False
             guarded = inner_ok
         construct = f"{pol.lower()} emission {unparse(node, 50)} under its mode test"
@@ -215,7 +216,7 @@ def r2_yield_discipline(chk: Check) -> None:
             chk.ok("C03.R2", csi, construct, "", csi.loc(y))
         else:
             wrong = "POSITIVE" if pol == "NEGATIVE" else "NEGATIVE"
-            under_wrong = any(isinstance(a, ast.If) and f"GenerationMode.{wrong} in ctx.generation_modes" in unparse(a.test, 200) and any(is_within(y, s) for s in a.body) for a in ancestors(y))
+            under_wrong = facts.get(f"GenerationMode.{wrong} in ctx.generation_modes") is True or facts.get(f"GenerationMode.{pol} in ctx.generation_modes") is False
             chk.decide(False if under_wrong else None, "C03.R2", csi, construct, f"{pol.lower()} values are produced when only {wrong.lower()} mode is requested", csi.loc(y))
     nctx = pfind("$n = $c.with_negative()", csi.node)
     chk.expect(bool(nctx) and all(is_var(b["c"], params_of(csi.node)[0]) for _n, b in nctx), "C03.R2", csi, "nctx = ctx.with_negative()", "negative recursion context not recognised", csi.loc())
